@@ -71,6 +71,16 @@ def run(outcome, tier, seed):
                 tags.append("misleading")
                 cases.append(cli.Case(["-f", other, "-t", rng.choice(targets), name2]))  # -f overrides the extension
                 tags.append("option-over-extension")
+        # extensions that are NOT in the table although they look like a format: the names and aliases -f takes (j, m, t, y, yml
+        # is the only alias that is an extension), near misses, other tools' extensions; content of another format than the name hints at
+        for k, near in enumerate(["j", "J", "m", "M", "t", "T", "y", "Y", "js", "jsn", "jsonl", "json5", "ya", "yam", "ymls", "tom", "tml", "mp", "mpk",
+                                  "msgpck", "messagepack", "txt", "cfg", "ini", "json~", "yaml.bak"]):
+            hinted = {"j": "json", "m": "msgpack", "t": "toml", "y": "yaml"}.get(near[0].lower(), "json")
+            other = [f for f in ("json", "toml", "yaml", "msgpack") if f != hinted][k % 3]
+            name = "near%d.%s" % (k, near)
+            fx.write(name, CONTENT[other])
+            cases.append(cli.Case(["-t", "json", name]))
+            tags.append("misleading")
         # odd names
         for name in ["x.tar.yaml", "x.json.bak", "noext", ".json", "misleading.toml", "misleading.json", "both.txt", "X.JSON", "x.Yml",
                      "./a.json", "dir.json", "dir.json/../a.json", "missing.YAML", "a.json/"]:
@@ -130,6 +140,13 @@ def run(outcome, tier, seed):
             os.mkfifo(fx.path(name))
             cases.append(cli.Case(["-tj", name], None, fifos={name: pieces}))
             tags.append("fifo")
+        # standard input redirected from a regular file: at offset 0, and already read up to a document boundary by an earlier
+        # consumer of the same descriptor (`{ read hdr; xt; } < file`): xt's input is what is left
+        for skip, rest in ((b"", b'{"a":1}\n{"b":2}\n'), (b'{"hdr":0}\n', b'{"a":1}\n{"b":2}\n'), (b"h: 0\n---\n", b"a: 1\n---\nb: 2\n"),
+                           (b'{"only":1}\n', b""), (b"\x81\xa1h\x00", b"\x81\xa1a\x01\x92\x01\x02"), (b'["junk', b'{"a":[1,2,3]}\n')):
+            for argv in (["-tj"], ["-tj", "-"], ["-ty", "a.json", "-", "b.yaml"], ["-f", "json", "-tj"] if rest[:1] in (b"{", b"") else ["-tm", "-"]):
+                cases.append(cli.Case(argv, rest, "pipe", stdin_skip=skip))
+                tags.append("stdin")
         # an option given after an operand counts for that operand too
         for argv in (["a.json", "-f", "yaml", "-tj"], ["b.yaml", "-tj", "-f", "yaml", "a.json"], ["misleading.toml", "-f", "json", "-ty"],
                      ["noext", "-ty", "-f", "toml"], ["-", "-tj", "-f", "yaml"], ["a.json", "-", "-f", "json", "-ty"]):
